@@ -1,3 +1,117 @@
+//! C43 — block aggregator protobuf conversions round-trip, `StorageDB::store_block`
+//! accepts only contiguous heights.
+//!
+//! Part A (inputs): structurally generated blocks (every transaction kind, input /
+//! output variant, policy subset, receipt variant, every panic-reason byte, optional
+//! fields None/Some(empty)/Some(data)) whose generated header fields are consistent
+//! with their transactions and receipts (the only blocks the node produces and the only
+//! ones the conversion can support, because `fuel_block_from_protobuf` re-derives the
+//! generated header fields) are converted fuel -> proto -> fuel, both on the message
+//! structs and through the prost wire encoding used by `ProtobufBlockConverter`.
+//! Oracle: result == input (block, id, receipts).
+//!
+//! Part B (histories): random store sequences (next / repeat / back / gap / far) are
+//! applied to the real `StorageDB` over (a) a plain shared KV store without any
+//! height logic of its own and (b) the production `Database<BlockAggregatorDatabase>`.
+//! Oracle: a 10-line contiguity model (first store defines the start; afterwards only
+//! `current + 1` is accepted; a rejected store changes nothing).
+
+mod txgen;
+
+use fuel_core::database::{
+    Database,
+    database_description::block_aggregator::BlockAggregatorDatabase,
+};
+use fuel_core_block_aggregator_api::{
+    blocks::old_block_source::{
+        BlockConverter,
+        convertor_adapter::{
+            ProtobufBlockConverter,
+            fuel_to_proto_conversions::{
+                proto_header_from_header,
+                proto_receipts_from_receipts,
+                proto_tx_from_tx,
+            },
+            proto_to_fuel_conversions::fuel_block_from_protobuf,
+        },
+    },
+    db::{
+        BlocksStorage,
+        storage_db::StorageDB,
+        table::{
+            Blocks,
+            Column,
+        },
+    },
+    protobuf_types::{
+        Block as ProtoBlock,
+        V1Block as ProtoV1Block,
+        block::VersionedBlock as ProtoVersionedBlock,
+    },
+};
+use fuel_core_storage::{
+    Result as StorageResult,
+    StorageAsRef,
+    kv_store::{
+        KeyValueInspect,
+        Value,
+        WriteOperation,
+    },
+    structured_storage::AsStructuredStorage,
+    transactional::{
+        Changes,
+        Modifiable,
+    },
+};
+use fuel_core_types::{
+    blockchain::{
+        block::Block,
+        header::{
+            ApplicationHeader,
+            ConsensusHeader,
+            PartialBlockHeader,
+        },
+        primitives::Empty,
+    },
+    fuel_tx::{
+        Input,
+        Output,
+        Receipt,
+        Transaction,
+        Witness,
+        field::{
+            Inputs,
+            Outputs,
+            Policies as PoliciesField,
+            Witnesses,
+        },
+        policies::Policies,
+    },
+    fuel_types::{
+        BlockHeight,
+        MessageId,
+        canonical::Serialize,
+    },
+    tai64::Tai64,
+};
+use prost::Message as _;
+use rand::{
+    Rng,
+    rngs::StdRng,
+};
+use serde_json::json;
+use std::{
+    collections::{
+        BTreeMap,
+        BTreeSet,
+        HashMap,
+    },
+    sync::{
+        Arc,
+        Mutex,
+    },
+};
+use txgen::*;
 use vcommon::*;
 
 fn main() {
@@ -5,7 +119,1003 @@ fn main() {
     install_quiet_panic_hook();
     let report = Report::new(&args.property);
     match args.property.as_str() {
-        other => report.inconclusive(format!("property {other} not implemented in this monitor")),
+        "C43" => c43(&args, &report),
+        other => {
+            report.inconclusive(format!(
+                "property {other} not implemented in this monitor"
+            ));
+            report.finish(&args, "exploration", "", false, &[]);
+        }
     }
-    report.finish(&args, "exploration", "", false, &[]);
 }
+
+// ---------------------------------------------------------------------------
+// Part A: round trip
+// ---------------------------------------------------------------------------
+
+struct RtCase {
+    block: Block,
+    receipts: Vec<Vec<Receipt>>,
+}
+
+/// message ids that end up in the block header: the ids of the `MessageOut`
+/// receipts of every transaction that did not revert / panic, in order
+/// (fuel-specs: only successful transactions emit messages).
+fn outbox_ids(receipts: &[Vec<Receipt>]) -> Vec<MessageId> {
+    let mut ids = Vec::new();
+    for group in receipts {
+        let failed = group
+            .iter()
+            .any(|r| matches!(r, Receipt::Revert { .. } | Receipt::Panic { .. }));
+        if !failed {
+            for r in group {
+                if let Some(id) = r.message_id() {
+                    ids.push(id);
+                }
+            }
+        }
+    }
+    ids
+}
+
+fn gen_rt_case(rng: &mut StdRng, iter: u64) -> RtCase {
+    let alpha = Alphabet::new(rng, 4, 30);
+    let mut src = FreeSource;
+    let n_txs = match rng.gen_range(0..10) {
+        0 => 0,
+        1 => 1,
+        _ => rng.gen_range(1..=5),
+    };
+    let height = BlockHeight::new(idx32(rng));
+    let mut txs = Vec::new();
+    for i in 0..n_txs {
+        let opts = Opts {
+            executed_form: rng.gen_bool(0.7),
+            ..Default::default()
+        };
+        // force every kind / variant to come up on a fixed schedule
+        let kind = if i == 0 {
+            (iter % 7) as u8
+        } else {
+            rng.gen_range(0..7u8)
+        };
+        let tx = if kind == 6 {
+            let ti = idx16(rng);
+            gen_mint(rng, &alpha, &opts, height, ti)
+        } else {
+            let mut tx = gen_tx(rng, &alpha, &mut src, &opts, kind);
+            if i == 0 {
+                force_variants(rng, &alpha, &mut src, &opts, &mut tx, iter);
+            }
+            tx
+        };
+        txs.push(tx);
+    }
+    let n_groups = match rng.gen_range(0..10) {
+        0 => 0,
+        1 => n_txs + 1,
+        _ => n_txs,
+    };
+    let mut receipts = Vec::new();
+    for g in 0..n_groups {
+        let n = rng.gen_range(0..6);
+        let mut group = Vec::new();
+        for k in 0..n {
+            let (variant, reason) = if g == 0 && k == 0 {
+                ((iter % 13) as u8, ((iter / 13) % 256) as u8)
+            } else {
+                (rng.gen_range(0..RECEIPT_VARIANTS), rng.r#gen())
+            };
+            group.push(gen_receipt(rng, &alpha, variant, reason));
+        }
+        receipts.push(group);
+    }
+    if n_groups > 0 && receipts[0].is_empty() {
+        receipts[0].push(gen_receipt(
+            rng,
+            &alpha,
+            (iter % 13) as u8,
+            ((iter / 13) % 256) as u8,
+        ));
+    }
+    let header = PartialBlockHeader {
+        application: ApplicationHeader {
+            da_height: word(rng).into(),
+            consensus_parameters_version: idx32(rng),
+            state_transition_bytecode_version: idx32(rng),
+            generated: Empty,
+        },
+        consensus: ConsensusHeader {
+            prev_root: if rng.gen_bool(0.2) {
+                Default::default()
+            } else {
+                b32(rng).into()
+            },
+            height,
+            time: Tai64(word(rng)),
+            generated: Empty,
+        },
+    };
+    let event_inbox_root = if rng.gen_bool(0.3) {
+        Default::default()
+    } else {
+        b32(rng).into()
+    };
+    let ids = outbox_ids(&receipts);
+    let block = Block::new(header, txs, &ids, event_inbox_root)
+        .expect("fewer than u16::MAX transactions");
+    RtCase { block, receipts }
+}
+
+/// make sure input variant `iter % 7`, output variant `iter % 5` and policy mask
+/// `iter % 64` occur in the first transaction
+fn force_variants(
+    rng: &mut StdRng,
+    a: &Alphabet,
+    src: &mut dyn Source,
+    o: &Opts,
+    tx: &mut Transaction,
+    iter: u64,
+) {
+    let input = gen_input(rng, a, src, o, (iter % 7) as u8);
+    let output = gen_output(rng, a, o, (iter % 5) as u8, 1);
+    let policies = gen_policies(rng, (iter % 64) as u8);
+    macro_rules! patch {
+        ($t:expr) => {{
+            $t.inputs_mut().push(input);
+            $t.outputs_mut().push(output);
+            *$t.policies_mut() = policies;
+        }};
+    }
+    match tx {
+        Transaction::Script(t) => patch!(t),
+        Transaction::Create(t) => patch!(t),
+        Transaction::Upgrade(t) => patch!(t),
+        Transaction::Upload(t) => patch!(t),
+        Transaction::Blob(t) => patch!(t),
+        Transaction::Mint(_) => {}
+    }
+}
+
+fn parts(
+    tx: &Transaction,
+) -> Option<(&Policies, &Vec<Input>, &Vec<Output>, &Vec<Witness>)> {
+    match tx {
+        Transaction::Script(t) => {
+            Some((t.policies(), t.inputs(), t.outputs(), t.witnesses()))
+        }
+        Transaction::Create(t) => {
+            Some((t.policies(), t.inputs(), t.outputs(), t.witnesses()))
+        }
+        Transaction::Upgrade(t) => {
+            Some((t.policies(), t.inputs(), t.outputs(), t.witnesses()))
+        }
+        Transaction::Upload(t) => {
+            Some((t.policies(), t.inputs(), t.outputs(), t.witnesses()))
+        }
+        Transaction::Blob(t) => {
+            Some((t.policies(), t.inputs(), t.outputs(), t.witnesses()))
+        }
+        Transaction::Mint(_) => None,
+    }
+}
+
+fn trunc(s: String) -> String {
+    if s.chars().count() > 700 {
+        let t: String = s.chars().take(700).collect();
+        format!("{t}…")
+    } else {
+        s
+    }
+}
+
+/// Where do (block, receipts) and (block', receipts') differ? `None` = equal.
+/// Returns (stable location key, human detail).
+fn diff(
+    a: &Block,
+    ra: &[Vec<Receipt>],
+    b: &Block,
+    rb: &[Vec<Receipt>],
+) -> Option<(String, String)> {
+    let (ha, hb) = (a.header(), b.header());
+    macro_rules! hf {
+        ($name:literal, $e:expr) => {{
+            let f = $e;
+            let (x, y) = (f(ha), f(hb));
+            if x != y {
+                return Some((
+                    format!("header.{}", $name),
+                    format!("expected {x:?} got {y:?}"),
+                ));
+            }
+        }};
+    }
+    use fuel_core_types::blockchain::header::BlockHeader as H;
+    hf!("da_height", |h: &H| h.da_height());
+    hf!("consensus_parameters_version", |h: &H| h
+        .consensus_parameters_version());
+    hf!("state_transition_bytecode_version", |h: &H| h
+        .state_transition_bytecode_version());
+    hf!("transactions_count", |h: &H| h.transactions_count());
+    hf!("message_receipt_count", |h: &H| h.message_receipt_count());
+    hf!("transactions_root", |h: &H| h.transactions_root());
+    hf!("message_outbox_root", |h: &H| h.message_outbox_root());
+    hf!("event_inbox_root", |h: &H| h.event_inbox_root());
+    hf!("prev_root", |h: &H| *h.prev_root());
+    hf!("height", |h: &H| *h.height());
+    hf!("time", |h: &H| h.time());
+    hf!("application_hash", |h: &H| *h.application_hash());
+    let (ta, tb) = (a.transactions(), b.transactions());
+    if ta.len() != tb.len() {
+        return Some((
+            "transactions.len".into(),
+            format!("expected {} got {}", ta.len(), tb.len()),
+        ));
+    }
+    for (i, (x, y)) in ta.iter().zip(tb.iter()).enumerate() {
+        if x == y && x.to_bytes() == y.to_bytes() {
+            continue;
+        }
+        let kind = tx_kind_name(x);
+        if kind != tx_kind_name(y) {
+            return Some((
+                format!("tx={kind} part=kind"),
+                format!("tx #{i}: expected {kind} got {}", tx_kind_name(y)),
+            ));
+        }
+        if let (Some(px), Some(py)) = (parts(x), parts(y)) {
+            if px.0 != py.0 {
+                return Some((
+                    format!("tx={kind} part=policies"),
+                    format!("tx #{i}: expected {:?} got {:?}", px.0, py.0),
+                ));
+            }
+            if px.1.len() != py.1.len() {
+                return Some((
+                    format!("tx={kind} part=inputs.len"),
+                    format!("tx #{i}"),
+                ));
+            }
+            for (ix, iy) in px.1.iter().zip(py.1.iter()) {
+                if ix != iy {
+                    return Some((
+                        format!("tx={kind} part=input variant={}", input_variant_name(ix)),
+                        trunc(format!("tx #{i}: expected {ix:?} got {iy:?}")),
+                    ));
+                }
+            }
+            if px.2.len() != py.2.len() {
+                return Some((
+                    format!("tx={kind} part=outputs.len"),
+                    format!("tx #{i}"),
+                ));
+            }
+            for (ox, oy) in px.2.iter().zip(py.2.iter()) {
+                if ox != oy {
+                    return Some((
+                        format!(
+                            "tx={kind} part=output variant={}",
+                            output_variant_name(ox)
+                        ),
+                        trunc(format!("tx #{i}: expected {ox:?} got {oy:?}")),
+                    ));
+                }
+            }
+            if px.3 != py.3 {
+                return Some((
+                    format!("tx={kind} part=witnesses"),
+                    trunc(format!("tx #{i}: expected {:?} got {:?}", px.3, py.3)),
+                ));
+            }
+        }
+        return Some((
+            format!("tx={kind} part=body"),
+            trunc(format!("tx #{i}: expected {x:?} got {y:?}")),
+        ));
+    }
+    if ra.len() != rb.len() {
+        return Some((
+            "receipts.groups".into(),
+            format!("expected {} groups got {}", ra.len(), rb.len()),
+        ));
+    }
+    for (g, (ga, gb)) in ra.iter().zip(rb.iter()).enumerate() {
+        if ga.len() != gb.len() {
+            return Some((
+                "receipts.group.len".into(),
+                format!("group {g}: expected {} got {}", ga.len(), gb.len()),
+            ));
+        }
+        for (x, y) in ga.iter().zip(gb.iter()) {
+            if x == y {
+                continue;
+            }
+            let v = receipt_variant_name(x);
+            if let (
+                Receipt::Panic {
+                    id: i1,
+                    reason: r1,
+                    pc: p1,
+                    is: s1,
+                    contract_id: c1,
+                },
+                Receipt::Panic {
+                    id: i2,
+                    reason: r2,
+                    pc: p2,
+                    is: s2,
+                    contract_id: c2,
+                },
+            ) = (x, y)
+            {
+                let field = if r1.reason() != r2.reason() {
+                    format!("reason.reason value={:?}", r1.reason())
+                } else if r1.instruction() != r2.instruction() {
+                    "reason.instruction".to_string()
+                } else if i1 != i2 {
+                    "id".to_string()
+                } else if p1 != p2 || s1 != s2 {
+                    "pc/is".to_string()
+                } else if c1 != c2 {
+                    "contract_id".to_string()
+                } else {
+                    "?".to_string()
+                };
+                return Some((
+                    format!("receipt=Panic field={field}"),
+                    trunc(format!("expected {x:?} got {y:?}")),
+                ));
+            }
+            return Some((
+                format!("receipt={v}"),
+                trunc(format!("expected {x:?} got {y:?}")),
+            ));
+        }
+    }
+    if a.id() != b.id() {
+        return Some((
+            "block_id".into(),
+            format!("expected {:?} got {:?}", a.id(), b.id()),
+        ));
+    }
+    if a != b {
+        return Some(("block(other)".into(), "blocks differ".into()));
+    }
+    None
+}
+
+type RtResult = Result<(Block, Vec<Vec<Receipt>>), String>;
+
+fn roundtrip_struct(c: &RtCase) -> RtResult {
+    let proto_block = ProtoBlock {
+        versioned_block: Some(ProtoVersionedBlock::V1(ProtoV1Block {
+            header: Some(proto_header_from_header(c.block.header())),
+            transactions: c.block.transactions().iter().map(proto_tx_from_tx).collect(),
+            receipts: c
+                .receipts
+                .iter()
+                .map(|r| proto_receipts_from_receipts(r))
+                .collect(),
+        })),
+    };
+    fuel_block_from_protobuf(proto_block).map_err(|e| format!("{e}"))
+}
+
+fn roundtrip_wire(c: &RtCase) -> RtResult {
+    let bytes = ProtobufBlockConverter
+        .convert_block(&c.block, &c.receipts)
+        .map_err(|e| format!("convert_block: {e}"))?;
+    let proto_block = ProtoBlock::decode(&*bytes).map_err(|e| format!("decode: {e}"))?;
+    fuel_block_from_protobuf(proto_block).map_err(|e| format!("{e}"))
+}
+
+fn shape_key(c: &RtCase) -> u64 {
+    let mut kinds = BTreeMap::<&str, u32>::new();
+    let mut vars = BTreeSet::<String>::new();
+    for tx in c.block.transactions() {
+        *kinds.entry(tx_kind_name(tx)).or_default() += 1;
+        if let Some((p, i, o, w)) = parts(tx) {
+            vars.insert(format!("p{}", p.bits()));
+            for x in i {
+                vars.insert(format!("i{}", input_variant_name(x)));
+            }
+            for x in o {
+                vars.insert(format!("o{}", output_variant_name(x)));
+            }
+            vars.insert(format!("w{}", w.len().min(3)));
+        }
+    }
+    for g in &c.receipts {
+        for r in g {
+            vars.insert(format!("r{}", receipt_variant_name(r)));
+        }
+    }
+    hash64(&(kinds, vars, c.receipts.len()))
+}
+
+fn observe_case(report: &Report, c: &RtCase, reasons: &Mutex<BTreeSet<u8>>) {
+    report.count("rt.cases");
+    if c.block.transactions().is_empty() {
+        report.count("rt.empty_blocks");
+    }
+    for tx in c.block.transactions() {
+        report.count(&format!("rt.tx.{}", tx_kind_name(tx)));
+        if let Transaction::Upgrade(u) = tx {
+            use fuel_core_types::fuel_tx::{
+                UpgradePurpose,
+                field::UpgradePurpose as _,
+            };
+            match u.upgrade_purpose() {
+                UpgradePurpose::ConsensusParameters { .. } => {
+                    report.count("rt.upgrade.ConsensusParameters")
+                }
+                UpgradePurpose::StateTransition { .. } => {
+                    report.count("rt.upgrade.StateTransition")
+                }
+            }
+        }
+        if let Some((p, i, o, w)) = parts(tx) {
+            for (k, t) in POLICY_TYPES.iter().enumerate() {
+                if p.is_set(*t) {
+                    report.count(&format!("rt.policy.{k}"));
+                }
+            }
+            if p.is_empty() {
+                report.count("rt.policy.none");
+            }
+            for x in i {
+                report.count(&format!("rt.input.{}", input_variant_name(x)));
+            }
+            for x in o {
+                report.count(&format!("rt.output.{}", output_variant_name(x)));
+            }
+            if w.is_empty() {
+                report.count("rt.witnesses.none");
+            }
+        }
+    }
+    for g in &c.receipts {
+        if g.is_empty() {
+            report.count("rt.receipt_group.empty");
+        }
+        for r in g {
+            report.count(&format!("rt.receipt.{}", receipt_variant_name(r)));
+            match r {
+                Receipt::Panic {
+                    reason,
+                    contract_id,
+                    ..
+                } => {
+                    reasons.lock().unwrap().insert(*reason.reason() as u8);
+                    if contract_id.is_some() {
+                        report.count("rt.receipt.Panic.contract_id.some");
+                    } else {
+                        report.count("rt.receipt.Panic.contract_id.none");
+                    }
+                }
+                Receipt::ReturnData { data, .. }
+                | Receipt::LogData { data, .. }
+                | Receipt::MessageOut { data, .. } => match data {
+                    None => report.count("rt.receipt.data.none"),
+                    Some(d) if d.is_empty() => report.count("rt.receipt.data.empty"),
+                    Some(_) => report.count("rt.receipt.data.some"),
+                },
+                _ => {}
+            }
+        }
+    }
+    if c.block.header().message_receipt_count() > 0 {
+        report.count("rt.blocks_with_outbox_messages");
+    }
+}
+
+fn judge_rt(
+    report: &Report,
+    c: &RtCase,
+    selftest: u32,
+    replay: serde_json::Value,
+) {
+    report.eval();
+    let pfx = if selftest > 0 { "selftest:" } else { "" };
+    for (path, f) in [
+        ("struct", roundtrip_struct as fn(&RtCase) -> RtResult),
+        ("wire", roundtrip_wire as fn(&RtCase) -> RtResult),
+    ] {
+        let res = catch(|| f(c));
+        let (mut block, mut receipts) = match res {
+            Err(p) => {
+                report.count("rt.panics");
+                report.violation(
+                    format!("{pfx}roundtrip_panic path={path}"),
+                    format!("conversion panicked: {p}"),
+                    replay.clone(),
+                );
+                return;
+            }
+            Ok(Err(e)) => {
+                report.count("rt.errors");
+                // keep the message but not the data-dependent tail in the signature
+                let short: String = e.chars().take(60).collect();
+                report.violation(
+                    format!("{pfx}roundtrip_error path={path} err={short}"),
+                    format!("a supported block failed to convert back: {e}"),
+                    replay.clone(),
+                );
+                return;
+            }
+            Ok(Ok(v)) => v,
+        };
+        // harness-side perturbations proving the oracle is not vacuous
+        match selftest {
+            1 => {
+                let h = block.header().da_height();
+                block.header_mut().set_da_height((h.0 ^ 1).into());
+            }
+            2 => {
+                if let Some(g) = receipts.iter_mut().find(|g| g.len() >= 2) {
+                    if g[0] != g[1] {
+                        g.swap(0, 1);
+                    }
+                }
+            }
+            3 => {
+                if let Some(tx) = block.transactions_mut().first_mut() {
+                    if let Transaction::Script(s) = tx {
+                        s.witnesses_mut().push(vec![1u8].into());
+                    }
+                }
+            }
+            _ => {}
+        }
+        if let Some((loc, detail)) = diff(&c.block, &c.receipts, &block, &receipts) {
+            report.count("rt.mismatches");
+            let sig = if path == "struct" {
+                format!("{pfx}roundtrip_mismatch {loc}")
+            } else {
+                format!("{pfx}roundtrip_mismatch(wire only) {loc}")
+            };
+            report.violation(sig, detail, replay.clone());
+            // the wire path would report the same thing again
+            return;
+        }
+        report.count(&format!("rt.ok.{path}"));
+    }
+}
+
+// ---------------------------------------------------------------------------
+// Part B: store sequences
+// ---------------------------------------------------------------------------
+
+/// Plain shared key-value store (no height logic of its own): the harness keeps a
+/// handle so it can read back what `StorageDB` wrote.
+#[derive(Clone, Default)]
+struct SharedKv(Arc<Mutex<HashMap<(u32, Vec<u8>), Value>>>);
+
+impl KeyValueInspect for SharedKv {
+    type Column = Column;
+
+    fn get(&self, key: &[u8], column: Self::Column) -> StorageResult<Option<Value>> {
+        Ok(self
+            .0
+            .lock()
+            .unwrap()
+            .get(&(column.as_u32(), key.to_vec()))
+            .cloned())
+    }
+}
+
+impl Modifiable for SharedKv {
+    fn commit_changes(&mut self, changes: Changes) -> StorageResult<()> {
+        let mut m = self.0.lock().unwrap();
+        for (column, ops) in changes {
+            for (key, op) in ops {
+                let key: Vec<u8> = key.into();
+                match op {
+                    WriteOperation::Insert(v) => {
+                        m.insert((column, key), v);
+                    }
+                    WriteOperation::Remove => {
+                        m.remove(&(column, key));
+                    }
+                }
+            }
+        }
+        Ok(())
+    }
+}
+
+fn block_bytes_for(rng: &mut StdRng, height: u32) -> Arc<[u8]> {
+    let header = PartialBlockHeader {
+        application: Default::default(),
+        consensus: ConsensusHeader {
+            prev_root: b32(rng).into(),
+            height: height.into(),
+            time: Tai64(rng.r#gen()),
+            generated: Empty,
+        },
+    };
+    let block = Block::new(header, vec![], &[], Default::default()).unwrap();
+    ProtobufBlockConverter
+        .convert_block(&block, &[])
+        .expect("convert_block")
+}
+
+trait ReadBack {
+    fn read_block(&self, h: u32) -> Result<Option<Arc<[u8]>>, String>;
+}
+
+impl<S> ReadBack for S
+where
+    S: KeyValueInspect<Column = Column>,
+{
+    fn read_block(&self, h: u32) -> Result<Option<Arc<[u8]>>, String> {
+        self.as_structured_storage()
+            .storage_as_ref::<Blocks>()
+            .get(&BlockHeight::new(h))
+            .map(|o| o.map(|c| c.into_owned()))
+            .map_err(|e| format!("{e}"))
+    }
+}
+
+#[derive(Clone, Debug, serde::Serialize)]
+struct StoreOp {
+    class: &'static str,
+    height: u32,
+}
+
+fn gen_store_seq(rng: &mut StdRng, len: usize) -> Vec<StoreOp> {
+    // heights 0..=6 (design), plus windows further up and at the very top of u32
+    let base: u32 = match rng.gen_range(0..8) {
+        0..=3 => 0,
+        4 => 1,
+        5 => rng.gen_range(2..1000),
+        6 => 0x00ff_fffd,
+        _ => u32::MAX - rng.gen_range(1..5),
+    };
+    let mut cur: Option<u32> = None;
+    let mut ops = Vec::new();
+    for _ in 0..len {
+        let (class, h) = match cur {
+            None => ("first", base.saturating_add(rng.gen_range(0..3))),
+            Some(c) => match rng.gen_range(0..100) {
+                0..=44 => match c.checked_add(1) {
+                    Some(n) => ("next", n),
+                    None => ("wrap", 0),
+                },
+                45..=57 => ("repeat", c),
+                58..=69 => ("back", c.saturating_sub(rng.gen_range(1..4))),
+                70..=84 => ("gap", c.saturating_add(rng.gen_range(2..4))),
+                85..=92 => ("far", rng.r#gen()),
+                _ => ("zero", 0),
+            },
+        };
+        // classes are named by intent; normalise the degenerate draws
+        let class = match (cur, class) {
+            (Some(c), _) if c.checked_add(1) == Some(h) => "next",
+            (Some(c), "back" | "zero" | "far" | "gap") if h == c => "repeat",
+            (_, k) => k,
+        };
+        // the generator's view of the outcome is only used to steer the walk
+        if cur.is_none() || cur.and_then(|c| c.checked_add(1)) == Some(h) {
+            cur = Some(h);
+        }
+        ops.push(StoreOp { class, height: h });
+    }
+    ops
+}
+
+fn run_store_seq<S>(
+    report: &Report,
+    backend: &'static str,
+    storage: S,
+    handle: &dyn ReadBack,
+    ops: &[StoreOp],
+    rng: &mut StdRng,
+    selftest: u32,
+    replay: serde_json::Value,
+) where
+    S: Modifiable + Send + Sync + KeyValueInspect<Column = Column>,
+{
+    let pfx = if selftest > 0 { "selftest:" } else { "" };
+    let mut db = StorageDB::new(storage);
+    // the model
+    let mut cur: Option<u32> = None;
+    let mut stored: BTreeMap<u32, Arc<[u8]>> = BTreeMap::new();
+    let mut trace: Vec<String> = Vec::new();
+    for (i, op) in ops.iter().enumerate() {
+        report.eval();
+        report.count("store.ops");
+        let bytes = block_bytes_for(rng, op.height);
+        let h = BlockHeight::new(op.height);
+        let res = catch(|| futures::executor::block_on(db.store_block(h, &bytes)));
+        let mut ok = match res {
+            Err(p) => {
+                report.inconclusive(format!("store_block panicked: {p}"));
+                return;
+            }
+            Ok(r) => r.is_ok(),
+        };
+        if selftest == 4 && op.class == "gap" {
+            // deliberately wrong wrapper: claims a gap store succeeded
+            ok = true;
+        }
+        if selftest == 5 && op.class == "next" && i % 3 == 2 {
+            // deliberately wrong wrapper: claims the next height was refused
+            ok = false;
+        }
+        let expect_ok = match cur {
+            None => true,
+            Some(c) => c.checked_add(1) == Some(op.height),
+        };
+        trace.push(format!(
+            "{}({}):{}",
+            op.class,
+            op.height,
+            if ok { "ok" } else { "err" }
+        ));
+        report.count(&format!(
+            "store.{}.{}",
+            if ok { "accepted" } else { "rejected" },
+            op.class
+        ));
+        if ok && !expect_ok {
+            let sig = if cur == Some(u32::MAX) {
+                format!(
+                    "{pfx}store_block accepted a height after u32::MAX backend={backend}"
+                )
+            } else {
+                format!(
+                    "{pfx}store_block accepted non-contiguous height class={} backend={backend}",
+                    op.class
+                )
+            };
+            report.violation(
+                sig,
+                format!(
+                    "current height {cur:?}, store_block({}) returned Ok; history: {}",
+                    op.height,
+                    trace.join(" ")
+                ),
+                replay.clone(),
+            );
+            return;
+        }
+        if !ok && expect_ok {
+            report.violation(
+                format!(
+                    "{pfx}store_block rejected the {} height backend={backend}",
+                    if cur.is_none() { "first" } else { "next contiguous" }
+                ),
+                format!(
+                    "current height {cur:?}, store_block({}) returned Err; history: {}",
+                    op.height,
+                    trace.join(" ")
+                ),
+                replay.clone(),
+            );
+            return;
+        }
+        if ok {
+            cur = Some(op.height);
+            stored.insert(op.height, bytes.clone());
+        }
+        // a rejected store changes nothing; an accepted one is visible
+        let got_cur = db.get_current_height().map(|o| o.map(|h| *h));
+        match got_cur {
+            Ok(g) if g == cur => {}
+            other => {
+                report.violation(
+                    format!("{pfx}current height wrong after store backend={backend}"),
+                    format!(
+                        "model {cur:?}, get_current_height() = {other:?}; history: {}",
+                        trace.join(" ")
+                    ),
+                    replay.clone(),
+                );
+                return;
+            }
+        }
+        let mut probe: BTreeSet<u32> = stored.keys().copied().collect();
+        probe.insert(op.height);
+        for ph in probe {
+            let got = handle.read_block(ph);
+            let want = stored.get(&ph).cloned();
+            if got.as_ref().ok() != Some(&want) {
+                report.violation(
+                    format!(
+                        "{pfx}stored block differs from model after {} store backend={backend}",
+                        if ok { "accepted" } else { "rejected" }
+                    ),
+                    format!(
+                        "height {ph}: model has {} bytes, storage returned {:?}; history: {}",
+                        want.map(|b| b.len() as i64).unwrap_or(-1),
+                        got.map(|o| o.map(|b| b.len())),
+                        trace.join(" ")
+                    ),
+                    replay.clone(),
+                );
+                return;
+            }
+        }
+    }
+    let classes: Vec<&str> = ops.iter().map(|o| o.class).collect();
+    if classes.iter().any(|c| *c != "first" && *c != "next") {
+        report.distinct(&("store", backend, trace.clone()));
+    }
+    if report.wants_sample() && ops.len() > 4 {
+        report.sample(json!({"kind": "store_sequence", "backend": backend, "history": trace}));
+    }
+}
+
+// ---------------------------------------------------------------------------
+
+fn c43(args: &Args, report: &Report) {
+    let selftest: u32 = args
+        .extra
+        .get("selftest")
+        .and_then(|s| s.parse().ok())
+        .unwrap_or(0);
+    let replay = read_replay(args);
+    let reasons: Arc<Mutex<BTreeSet<u8>>> = Default::default();
+
+    let rt_shards = args.by_tier(16usize, 64);
+    let rt_iters = args.by_tier(500u64, 5000);
+    let st_shards = args.by_tier(16usize, 64);
+    let st_seqs = args.by_tier(40u64, 600);
+
+    if let Some(rp) = &replay {
+        // re-execute exactly the recorded case
+        let part = rp["part"].as_str().unwrap_or("");
+        let shard_seed = rp["shard_seed"].as_u64().unwrap_or(0);
+        let iter = rp["iteration"].as_u64().unwrap_or(0);
+        if part == "roundtrip" {
+            let mut rng = rng_for(shard_seed, &[tag("rt"), iter]);
+            let c = gen_rt_case(&mut rng, iter);
+            observe_case(report, &c, &reasons);
+            judge_rt(report, &c, selftest, rp.clone());
+        } else {
+            let mut rng = rng_for(shard_seed, &[tag("store"), iter]);
+            let ops = gen_store_seq(&mut rng, 14);
+            store_both(report, &ops, &mut rng, selftest, rp.clone());
+        }
+        report.finish(args, "exploration", RULE, false, ASSUMPTIONS);
+        return;
+    }
+
+    {
+        let report2 = report.clone();
+        let reasons = reasons.clone();
+        run_shards(report, args, rt_shards, move |shard, seed| {
+            for i in 0..rt_iters {
+                // a global iteration number drives the forced-variant schedule so that
+                // the shards together sweep it
+                let iter = i * rt_shards as u64 + shard as u64;
+                let mut rng = rng_for(seed, &[tag("rt"), iter]);
+                let c = gen_rt_case(&mut rng, iter);
+                observe_case(&report2, &c, &reasons);
+                if !c.block.transactions().is_empty()
+                    && c.receipts.iter().any(|g| !g.is_empty())
+                {
+                    report2.distinct_hash(shape_key(&c));
+                }
+                if report2.wants_sample() && i == 3 {
+                    report2.sample(json!({
+                        "kind": "roundtrip_case",
+                        "txs": c.block.transactions().iter().map(tx_kind_name).collect::<Vec<_>>(),
+                        "receipts": c.receipts.iter().map(|g| g.iter().map(receipt_variant_name).collect::<Vec<_>>()).collect::<Vec<_>>(),
+                        "header": trunc(format!("{:?}", c.block.header())),
+                    }));
+                }
+                let rp = json!({"part": "roundtrip", "seed": seed, "shard_seed": seed, "shard": shard, "iteration": iter});
+                judge_rt(&report2, &c, selftest, rp);
+            }
+        });
+    }
+    {
+        let report2 = report.clone();
+        run_shards(report, args, st_shards, move |shard, seed| {
+            for i in 0..st_seqs {
+                let mut rng = rng_for(seed, &[tag("store"), i]);
+                let ops = gen_store_seq(&mut rng, 14);
+                let rp = json!({"part": "store", "seed": seed, "shard_seed": seed, "shard": shard, "iteration": i, "ops": ops});
+                store_both(&report2, &ops, &mut rng, selftest, rp);
+            }
+        });
+    }
+
+    let n_reasons = reasons.lock().unwrap().len() as u64;
+    report.add("rt.panic_reasons_distinct", n_reasons);
+    report.info(
+        "panic_reasons_seen",
+        json!(reasons.lock().unwrap().iter().collect::<Vec<_>>()),
+    );
+
+    if selftest == 0 {
+        report.require("rt.cases", args.by_tier(6000, 200_000));
+        report.require("rt.ok.struct", args.by_tier(5000, 150_000));
+        for k in ["Script", "Create", "Mint", "Upgrade", "Upload", "Blob"] {
+            report.require(&format!("rt.tx.{k}"), 500);
+        }
+        report.require("rt.upgrade.ConsensusParameters", 200);
+        report.require("rt.upgrade.StateTransition", 200);
+        for k in [
+            "CoinSigned",
+            "CoinPredicate",
+            "Contract",
+            "MessageCoinSigned",
+            "MessageCoinPredicate",
+            "MessageDataSigned",
+            "MessageDataPredicate",
+        ] {
+            report.require(&format!("rt.input.{k}"), 500);
+        }
+        for k in ["Coin", "Contract", "Change", "Variable", "ContractCreated"] {
+            report.require(&format!("rt.output.{k}"), 500);
+        }
+        for k in 0..6 {
+            report.require(&format!("rt.policy.{k}"), 500);
+        }
+        report.require("rt.policy.none", 100);
+        for k in [
+            "Call",
+            "Return",
+            "ReturnData",
+            "Panic",
+            "Revert",
+            "Log",
+            "LogData",
+            "Transfer",
+            "TransferOut",
+            "ScriptResult",
+            "MessageOut",
+            "Mint",
+            "Burn",
+        ] {
+            report.require(&format!("rt.receipt.{k}"), 500);
+        }
+        // every reason the VM can emit (the decoded set of all 256 reason bytes)
+        report.require("rt.panic_reasons_distinct", 60);
+        report.require("rt.receipt.data.none", 100);
+        report.require("rt.receipt.data.empty", 100);
+        report.require("rt.blocks_with_outbox_messages", 200);
+        report.require("store.ops", args.by_tier(10_000, 100_000));
+        report.require("store.accepted.next", 2000);
+        report.require("store.accepted.first", 500);
+        report.require("store.rejected.repeat", 300);
+        report.require("store.rejected.back", 300);
+        report.require("store.rejected.gap", 300);
+        report.require("store.rejected.far", 100);
+    }
+    report.finish(args, "exploration", RULE, false, ASSUMPTIONS);
+}
+
+fn store_both(
+    report: &Report,
+    ops: &[StoreOp],
+    rng: &mut StdRng,
+    selftest: u32,
+    rp: serde_json::Value,
+) {
+    let kv = SharedKv::default();
+    run_store_seq(report, "kv", kv.clone(), &kv, ops, rng, selftest, rp.clone());
+    let db = Database::<BlockAggregatorDatabase>::in_memory();
+    run_store_seq(report, "database", db.clone(), &db, ops, rng, selftest, rp);
+}
+
+const RULE: &str = "roundtrip: per iteration one structurally generated block (0-5 txs of \
+all six kinds incl. both upgrade purposes, inputs/outputs of every variant, policy \
+subsets, 0..n+1 receipt groups with every receipt variant; variant k / panic-reason byte \
+are forced on a fixed schedule so that all appear) whose generated header fields are \
+derived from its txs and receipts; converted fuel->proto->fuel on the message structs \
+and through prost bytes; distinct = distinct (tx-kind multiset, set of \
+policy-masks/input/output/receipt variants) of blocks with >=1 tx and >=1 receipt. \
+store: random 14-op sequences (first/next/repeat/back/gap/far/zero, windows at 0, \
+mid-range, 2^24 and the top of u32) against StorageDB over a plain KV store and over \
+Database<BlockAggregatorDatabase>; distinct = distinct (op class, height, result) \
+histories containing at least one non-next op";
+
+const ASSUMPTIONS: &[&str] = &[
+    "blocks are structurally generated, not executed; header generated fields are derived from txs/receipts with the executor's rule (message ids of non-reverted txs)",
+    "prost encoding/decoding and fuel-tx constructors are trusted",
+    "fault-proving (V2 header) is not compiled in",
+];
